@@ -665,10 +665,25 @@ def read_lines(trace):
     return [(r, _t(trace, r), text) for r, _w, text in lines_by_read(trace)]
 
 
+_CONV_KINDS = None
+
+
+def _conv_kinds():
+    global _CONV_KINDS
+    if _CONV_KINDS is None:
+        from . import core
+        _CONV_KINDS = {(c["py"], f["name"]): f["conv"]["k"] for c in core.tables()["classes"] for f in c["fns"]}
+    return _CONV_KINDS
+
+
 def decode_show(py_class, fname, text):
     """typed decoding of `text` for function `fname` of class `py_class`, rendered like scen_api.show; None if undecodable"""
     from .realobj import subunit_class
     from .scen_api import show
+    # text functions pass values through unchanged: that much is stated independently of the library's converter (regenerated tables)
+    kind = _conv_kinds().get((py_class, fname))
+    if kind == "str":
+        return show(text)
     cls = subunit_class(py_class)
     for attr in dir(cls):
         a = getattr(cls, attr, None)
@@ -782,6 +797,39 @@ def _stage_barriers(tr):
 def mon_c07(spec, run):
     bad = []
     tr = run.trace
+    other = next((e for e in tr if e["k"] == "other_api"), None)
+    if spec.get("other_device"):
+        tr = first_connection_only(tr)          # another YncaApi object talks to another receiver: its traffic is not this object's
+    bad = _mon_c07(spec, run, tr)
+    if bad or other is None or other.get("exc") is not None:
+        return bad
+    r_ = api_rets(tr, "initialize")
+    if not r_ or r_[0]["exc"] is not None:
+        return bad
+    state = r_[0]["state"]
+    known = set(spec.get("known_ids", []))
+    want2 = {"SYS"} | {s for s in spec["other_device"].get("avail", {}) if s in known}
+    if set(other["other_state"]) != want2:
+        bad.append(("presence-other", f"a second YncaApi object initialised against another receiver has accessors for {sorted(other['other_state'])}; that receiver answered AVAIL for "
+                                      f"{sorted(spec['other_device'].get('avail', {}))} (the first object's receiver: {sorted(state)})"))
+    elif set(other["state"]) != set(state):
+        bad.append(("presence-changed", f"after ANOTHER YncaApi object was initialised against another receiver, the first object's accessors are {sorted(other['state'])}; "
+                                        f"when its initialize() returned they were {sorted(state)}"))
+    elif spec.get("quiet_first"):
+        for s_, o in state.items():
+            skip_ = ("VERSION", "MODELNAME") if s_ == "SYS" else ()       # the last sync reply races with the return by design; probe replies
+            a1 = {k: v for k, v in o["attrs"].items() if k not in skip_}
+            a2 = {k: v for k, v in other["state"][s_]["attrs"].items() if k not in skip_}
+            if a1 != a2:
+                d = next(k for k in set(a1) | set(a2) if a1.get(k) != a2.get(k))
+                bad.append(("values-changed", f"after ANOTHER YncaApi object was initialised against another receiver, {s_}.{d} of the first object reads {other['state'][s_]['attrs'].get(d)!r}; "
+                                              f"its own receiver had reported {o['attrs'].get(d)!r} and nothing since"))
+                break
+    return bad
+
+
+def _mon_c07(spec, run, tr):
+    bad = []
     k2 = next((i for i, e in enumerate(tr) if e["k"] == "attempt2"), None)
     if k2 is not None:
         tr = tr[k2:]          # an earlier, failed attempt on the same object is not judged here
